@@ -140,6 +140,54 @@ def con_rows(q):
     return rows
 
 
+def plain_scipy_twin(q, x_start):
+    """The same QP handed to scipy.optimize.minimize directly (physical units, no OpenMDAO, constraints passed the
+    way ScipyOptimizeDriver passes them): what the optimizer itself makes of the problem from that start.
+    Returns x or None."""
+    import warnings
+    from scipy.optimize import minimize, NonlinearConstraint, LinearConstraint, Bounds, BFGS
+    L, t = np.array(q['L']), np.array(q['t'])
+    H = L.T @ L
+    f = lambda x: 0.5 * float(np.sum((L @ (x - t)) ** 2))        # noqa: E731
+    g = lambda x: H @ (x - t)                                     # noqa: E731
+    n = len(t)
+    rows = con_rows(q)
+    try:
+        with warnings.catch_warnings():
+            warnings.simplefilter('ignore')
+            if q['opt'] == 'SLSQP':
+                cons = []
+                for k, rr, a, d, lo, up, e in rows:
+                    if e is not None:
+                        cons.append({'type': 'eq', 'fun': (lambda x, a=a, d=d, e=e: a @ x + d - e), 'jac': (lambda x, a=a: a)})
+                        continue
+                    if lo > -1e29:
+                        cons.append({'type': 'ineq', 'fun': (lambda x, a=a, d=d, lo=lo: a @ x + d - lo), 'jac': (lambda x, a=a: a)})
+                    if up < 1e29:
+                        cons.append({'type': 'ineq', 'fun': (lambda x, a=a, d=d, up=up: up - (a @ x + d)), 'jac': (lambda x, a=a: -a)})
+                r = minimize(f, np.array(x_start, dtype=float), jac=g, method='SLSQP', bounds=[(q['xlo'], q['xup'])] * n,
+                             constraints=cons, tol=1e-10, options={'maxiter': 400})
+            elif q['opt'] == 'trust-constr':
+                cons = []
+                for k, rr, a, d, lo, up, e in rows:
+                    lb, ub = (e, e) if e is not None else (max(lo, -np.inf if lo < -1e29 else lo), up if up < 1e29 else np.inf)
+                    if e is None and lo < -1e29:
+                        lb = -np.inf
+                    if q['cons'][k].get('linear'):
+                        cons.append(LinearConstraint(a[None, :], lb - d, ub - d, keep_feasible=True))
+                    else:
+                        cons.append(NonlinearConstraint((lambda x, a=a, d=d: np.array([a @ x + d])), lb, ub,
+                                                        jac=(lambda x, a=a: a[None, :])))
+                r = minimize(f, np.array(x_start, dtype=float), jac=g, hess=BFGS(), method='trust-constr',
+                             bounds=Bounds([q['xlo']] * n, [q['xup']] * n), constraints=cons, tol=1e-10,
+                             options={'maxiter': 400})
+            else:
+                return None
+        return np.array(r.x, dtype=float) if r.success else None
+    except Exception:      # noqa
+        return None
+
+
 def qp_reference(q):
     """Active-set / KKT enumeration of  min 1/2 |L(x-t)|^2  s.t. rows, variable bounds."""
     L, t = np.array(q['L']), np.array(q['t'])
@@ -233,6 +281,17 @@ class C21(Check):
             plan['fault'] = {'method': rng.choice(['compute', 'compute', 'compute_partials']), 'n': rng.randint(1, 12),
                              'kind': rng.choice(['analysis_error', 'nan'])}
         return plan
+
+    @staticmethod
+    def _optimizer_itself_suboptimal(qq, x_start, ref):
+        if x_start is None or ref is None:
+            return False
+        xt = plain_scipy_twin(qq, x_start)
+        if xt is None:
+            return False
+        f_t = 0.5 * float(np.sum((np.array(qq['L']) @ (xt - np.array(qq['t']))) ** 2))
+        return bool(np.abs(xt - ref[1]).max() > 2e-3 * (1 + np.abs(ref[1]).max()) and
+                    f_t - ref[0] > 1e-6 * (1.0 + abs(ref[0])))
 
     def _solve(self, q, fault, log, st, faults, second=None):
         import openmdao.api as om
@@ -462,7 +521,20 @@ class C21(Check):
                 if near:
                     probes.inc('trust_constr_restart_on_active_row_optimality_not_judged')
                     continue
-            if np.abs(x - ref[1]).max() > 2e-3 * (1 + np.abs(ref[1]).max()):
+            f_x = 0.5 * float(np.sum((np.array(qq['L']) @ (x - np.array(qq['t']))) ** 2))
+            if np.abs(x - ref[1]).max() > 2e-3 * (1 + np.abs(ref[1]).max()) and \
+                    f_x - ref[0] <= 1e-6 * (1.0 + abs(ref[0])):
+                # optimal in the objective to 1e-6 (and feasible, judged above): with a flat objective
+                # (|L| small) the optimizer's stopping tolerance leaves x itself less well determined
+                probes.inc('optimum_judged_by_objective_value')
+            elif np.abs(x - ref[1]).max() > 2e-3 * (1 + np.abs(ref[1]).max()) and not r.get('twin_checked') and \
+                    self._optimizer_itself_suboptimal(qq, first_x.get(tag.split('/')[0]) if tag.endswith('/second-run')
+                                                      else np.array(qq['x0']), ref):
+                # scipy's optimizer, handed the same problem directly, also reports success away from the optimum
+                # (degenerate problems: equalities that force a variable onto its bound make SLSQP stop after two
+                # iterations with "Optimization terminated successfully").  The driver conveyed what it was told.
+                probes.inc('optimizer_itself_reports_success_away_from_the_optimum')
+            elif np.abs(x - ref[1]).max() > 2e-3 * (1 + np.abs(ref[1]).max()):
                 viol.append({'inv': 'I-21-optimum', 'msg': f"{tag} ({qq['opt']}): success at x={x.tolist()} but the optimum is "
                              f"{ref[1].tolist()} (f {0.5 * np.sum((np.array(qq['L']) @ (x - np.array(qq['t']))) ** 2):.6g} vs {ref[0]:.6g})"})
                 break
